@@ -1,15 +1,425 @@
 /-
 C15 — inferred and user-specified domains represent the intended set.
-Property theorems about `Model/Domain.lean`.
+Property theorems about `Model/Domain.lean`.  Helper lemmas: `Lemmas/Dom*.lean` (prefix `dm_`).
 -/
 import SageoptModel.Model.Domain
+import SageoptModel.Lemmas.DomainSem
+import SageoptModel.Lemmas.SigSem
+import SageoptModel.Lemmas.DomInfer
+import SageoptModel.Lemmas.DomReorder
 
 namespace Sageopt.Props.C15
-open Sageopt Sageopt.Sig Sageopt.Relax Sageopt.Domain
+open Sageopt Sageopt.Sig Sageopt.Relax Sageopt.Poly Sageopt.Sage Sageopt.Domain
 
-/-- reordering columns keeps the rows (and hence `b` and `K`) in place -/
-theorem reorderCols_length (A : List (List Rat)) (ncols : Nat) (selector : List Int) :
-    (reorderCols A ncols selector).length = A.length := by
-  simp [reorderCols]
+/-- normalising an inequality (dividing by its single positive monomial) does not change the set -/
+theorem posyIneq_keep_iff (g g' : SigQ) (hg : SigWf g) (hgrid : ∀ t ∈ g.terms, OnGrid t.1) (h : posyIneq g = .keep g')
+    (y : List ℝ) (hy : y.length = g.n) :
+    0 ≤ sigR g.terms y ↔ 0 ≤ sigR g'.terms y :=
+  dm_posyIneq_keep_iff g g' (dm_wf_of g hg hgrid) h y
+
+/-- a constraint that is skipped is simply not used: the inferred set can only be larger; a constraint with no positive
+    term and some negative term is reported as infeasible, and it is (no point satisfies it) -/
+theorem posyIneq_raise_infeasible (g : SigQ) (h : posyIneq g = .raises "RuntimeError: infeasible signomial inequality")
+    (y : List ℝ) : sigR g.terms y < 0 :=
+  dm_sig_neg_of_raise g h y
+
+/-- normalising an equation does not change the set -/
+theorem monoEq_keep_iff (g g' : SigQ) (hg : SigWf g) (hgrid : ∀ t ∈ g.terms, OnGrid t.1) (h : monoEq g = .keep g')
+    (y : List ℝ) (hy : y.length = g.n) :
+    sigR g.terms y = 0 ↔ sigR g'.terms y = 0 :=
+  dm_monoEq_keep_iff g g' (dm_wf_of g hg hgrid) h y
+
+/-- the generated log-space constraints of a standard-form inequality describe exactly `g ≥ 0` -/
+theorem clconGt_iff (g : SigQ) (hg : StdGt g) (y : List ℝ) (hy : y.length = g.n) :
+    (∀ c ∈ clconGt g, LogCon.holds y c) ↔ 0 ≤ sigR g.terms y :=
+  dm_clconGt_iff g hg y
+
+/-- the generated log-space constraint of a standard-form equation describes exactly `g = 0` -/
+theorem clconEq_iff (g : SigQ) (hg : StdEq g) (y : List ℝ) (hy : y.length = g.n) :
+    (∀ c ∈ clconEq g, LogCon.holds y c) ↔ sigR g.terms y = 0 :=
+  dm_clconEq_iff g hg y
+
+/-- what `posyIneq` keeps is in standard form (so `clconGt_iff` applies to it) -/
+theorem posyIneq_keep_std (g g' : SigQ) (hg : SigWf g) (hgrid : ∀ t ∈ g.terms, OnGrid t.1) (h : posyIneq g = .keep g') : StdGt g' :=
+  dm_posyIneq_keep_std g g' (dm_wf_of g hg hgrid) h
+
+/-- what `monoEq` keeps: either in standard form, or a single positive constant (the equation `c e^{a·y} = 0`, for which
+    `clconEq` raises: the code raises IndexError there, pre-finding F14) -/
+theorem monoEq_keep_std (g g' : SigQ) (hg : SigWf g) (hgrid : ∀ t ∈ g.terms, OnGrid t.1) (h : monoEq g = .keep g') :
+    StdEq g' ∨ g'.terms.length ≤ 1 :=
+  dm_monoEq_keep_std g g' (dm_wf_of g hg hgrid) h
+
+/-- EXACTNESS: the inferred set is exactly the set cut out by the kept constraints `X.gts`, `X.eqs` -/
+theorem inferSig_exact (gts eqs : List SigQ) (hw : ∀ g ∈ gts ++ eqs, SigWf g ∧ ∀ t ∈ g.terms, OnGrid t.1) (n : Nat)
+    (hn : ∀ g ∈ gts ++ eqs, g.n = n) (r : Inferred) (h : inferSig gts eqs = .ok (some r)) (y : List ℝ) (hy : y.length = n) :
+    (∀ c ∈ r.cons, LogCon.holds y c) ↔ ((∀ g ∈ r.gts, 0 ≤ sigR g.terms y) ∧ (∀ g ∈ r.eqs, sigR g.terms y = 0)) := by
+  obtain ⟨hgts, heqs, hcons, hno⟩ := dm_inferSig_ok gts eqs r h
+  have hkg : ∀ g' ∈ r.gts, StdGt g' := by
+    intro g' hg'
+    rw [hgts] at hg'
+    obtain ⟨g, hg, hk⟩ := (dm_mem_keptOf_map gts posyIneq g').1 hg'
+    obtain ⟨h1, h2⟩ := hw g (List.mem_append_left _ hg)
+    exact dm_posyIneq_keep_std g g' (dm_wf_of g h1 h2) hk
+  have hke : ∀ g' ∈ r.eqs, StdEq g' := by
+    intro g' hg'
+    have hg'' := hg'
+    rw [heqs] at hg''
+    obtain ⟨g, hg, hk⟩ := (dm_mem_keptOf_map eqs monoEq g').1 hg''
+    obtain ⟨h1, h2⟩ := hw g (List.mem_append_right _ hg)
+    rcases dm_monoEq_keep_std g g' (dm_wf_of g h1 h2) hk with hs | hs
+    · exact hs
+    · exfalso
+      obtain ⟨m, hm⟩ := dm_clconEq_raises g' hs
+      refine hno (.raises m) ?_ m rfl
+      rw [hcons]
+      exact List.mem_append_right _ (List.mem_flatMap.2 ⟨g', hg', by rw [hm]; simp⟩)
+  rw [hcons]
+  exact dm_cons_iff r.gts r.eqs hkg hke y
+
+/-- CONTAINMENT: every point satisfying all of gts and eqs lies in the inferred set -/
+theorem inferSig_contains (gts eqs : List SigQ) (hw : ∀ g ∈ gts ++ eqs, SigWf g ∧ ∀ t ∈ g.terms, OnGrid t.1) (n : Nat)
+    (hn : ∀ g ∈ gts ++ eqs, g.n = n) (r : Inferred) (h : inferSig gts eqs = .ok (some r)) (y : List ℝ) (hy : y.length = n)
+    (hg : ∀ g ∈ gts, 0 ≤ sigR g.terms y) (he : ∀ g ∈ eqs, sigR g.terms y = 0) :
+    ∀ c ∈ r.cons, LogCon.holds y c := by
+  obtain ⟨hgts, heqs, _, _⟩ := dm_inferSig_ok gts eqs r h
+  apply (inferSig_exact gts eqs hw n hn r h y hy).2
+  constructor
+  · intro g' hg'
+    rw [hgts] at hg'
+    obtain ⟨g, hgm, hk⟩ := (dm_mem_keptOf_map gts posyIneq g').1 hg'
+    obtain ⟨h1, h2⟩ := hw g (List.mem_append_left _ hgm)
+    exact (dm_posyIneq_keep_iff g g' (dm_wf_of g h1 h2) hk y).1 (hg g hgm)
+  · intro g' hg'
+    rw [heqs] at hg'
+    obtain ⟨g, hgm, hk⟩ := (dm_mem_keptOf_map eqs monoEq g').1 hg'
+    obtain ⟨h1, h2⟩ := hw g (List.mem_append_right _ hgm)
+    exact (dm_monoEq_keep_iff g g' (dm_wf_of g h1 h2) hk y).1 (he g hgm)
+
+/-- polynomials with even exponents only: `g(x) = g_sig(log|x|)` at every point without zero coordinate, in every orthant -/
+theorem even_poly_logabs (g : SigQ) (hg : PolyWfQ g) (he : allEven g = true) (x : List ℝ) (hx : NoZero x) (hl : x.length = g.n) :
+    polyR g.terms x = sigR g.terms (logAbs x) :=
+  dm_even_poly g hg he x hx hl
+
+/-- EXACTNESS for polynomials: `log|x|` lies in the inferred set iff `x` satisfies the kept polynomial constraints -/
+theorem inferPoly_exact (gts eqs : List SigQ) (hw : ∀ g ∈ gts ++ eqs, PolyWfQ g ∧ (keys g.terms).Nodup) (n : Nat)
+    (hn : ∀ g ∈ gts ++ eqs, g.n = n) (r : Inferred) (h : inferPoly gts eqs = .ok (some r)) (x : List ℝ) (hx : NoZero x) (hl : x.length = n) :
+    (∀ c ∈ r.cons, LogCon.holds (logAbs x) c) ↔ ((∀ g ∈ r.gts, 0 ≤ polyR g.terms x) ∧ (∀ g ∈ r.eqs, polyR g.terms x = 0)) := by
+  obtain ⟨hgts, heqs, hlg, hle, hcons, _⟩ := dm_inferPoly_ok gts eqs r h
+  -- every kept polynomial inequality: well formed, one positive term, even
+  have hG : ∀ g ∈ r.gts, Wf g ∧ PolyWfQ g ∧ g.n = n ∧ allEven g = true ∧ ∃ p, posTerms g = [p] := by
+    intro g hg
+    rw [hgts] at hg
+    obtain ⟨g0, hg0, hk⟩ := (dm_mem_keptOf_map gts gpPolyIneq g).1 hg
+    obtain ⟨rfl, hp, hev⟩ := dm_gpPolyIneq_keep g0 g hk
+    obtain ⟨h1, h2⟩ := hw g (List.mem_append_left _ hg0)
+    exact ⟨dm_polyWf_wf g h1 h2, h1, hn g (List.mem_append_left _ hg0), hev, hp⟩
+  have hE : ∀ g ∈ r.eqs, Wf g ∧ PolyWfQ g ∧ g.n = n ∧ allEven g = true ∧ nonzeroCount g = 2 ∧
+      ∃ p, posTerms g = [p] := by
+    intro g hg
+    rw [heqs] at hg
+    obtain ⟨g0, hg0, hk⟩ := (dm_mem_keptOf_map eqs gpPolyEq g).1 hg
+    obtain ⟨rfl, hp, hev, h2c⟩ := dm_gpPolyEq_keep g0 g hk
+    obtain ⟨h1, h2⟩ := hw g (List.mem_append_right _ hg0)
+    exact ⟨dm_polyWf_wf g h1 h2, h1, hn g (List.mem_append_right _ hg0), hev, h2c, hp⟩
+  have hkg : ∀ g' ∈ r.logGts, StdGt g' := by
+    intro g' hg'
+    rw [hlg] at hg'
+    obtain ⟨g, hg, hk⟩ := (dm_mem_keptOf_map r.gts posyIneq g').1 hg'
+    exact dm_posyIneq_keep_std g g' (hG g hg).1 hk
+  have hke : ∀ g' ∈ r.logEqs, StdEq g' := by
+    intro g' hg'
+    rw [hle] at hg'
+    obtain ⟨g, hg, hk⟩ := (dm_mem_keptOf_map r.eqs monoEq g').1 hg'
+    exact dm_monoEq_keep_std2 g g' (hE g hg).1 hk (hE g hg).2.2.2.2.1
+  rw [hcons, dm_cons_iff r.logGts r.logEqs hkg hke (logAbs x)]
+  constructor
+  · rintro ⟨h1, h2⟩
+    constructor
+    · intro g hg
+      obtain ⟨hwf, hpw, hgn, hev, p, hp⟩ := hG g hg
+      have hk := dm_posyIneq_of_single g p hp
+      have hm : mulQ g (monomial g.n (negExp p.1)) ∈ r.logGts := by
+        rw [hlg]; exact (dm_mem_keptOf_map r.gts posyIneq _).2 ⟨g, hg, hk⟩
+      rw [dm_even_poly g hpw hev x hx (by rw [hl, hgn])]
+      exact (dm_posyIneq_keep_iff g _ hwf hk (logAbs x)).2 (h1 _ hm)
+    · intro g hg
+      obtain ⟨hwf, hpw, hgn, hev, h2c, p, hp⟩ := hE g hg
+      have hk := dm_monoEq_of_single g p hp h2c
+      have hm : mulQ g (monomial g.n (negExp p.1)) ∈ r.logEqs := by
+        rw [hle]; exact (dm_mem_keptOf_map r.eqs monoEq _).2 ⟨g, hg, hk⟩
+      rw [dm_even_poly g hpw hev x hx (by rw [hl, hgn])]
+      exact (dm_monoEq_keep_iff g _ hwf hk (logAbs x)).2 (h2 _ hm)
+  · rintro ⟨h1, h2⟩
+    constructor
+    · intro g' hg'
+      rw [hlg] at hg'
+      obtain ⟨g, hg, hk⟩ := (dm_mem_keptOf_map r.gts posyIneq g').1 hg'
+      obtain ⟨hwf, hpw, hgn, hev, _⟩ := hG g hg
+      apply (dm_posyIneq_keep_iff g g' hwf hk (logAbs x)).1
+      rw [← dm_even_poly g hpw hev x hx (by rw [hl, hgn])]
+      exact h1 g hg
+    · intro g' hg'
+      rw [hle] at hg'
+      obtain ⟨g, hg, hk⟩ := (dm_mem_keptOf_map r.eqs monoEq g').1 hg'
+      obtain ⟨hwf, hpw, hgn, hev, _⟩ := hE g hg
+      apply (dm_monoEq_keep_iff g g' hwf hk (logAbs x)).1
+      rw [← dm_even_poly g hpw hev x hx (by rw [hl, hgn])]
+      exact h2 g hg
+
+/-- CONTAINMENT for polynomials, in log|x| -/
+theorem inferPoly_contains (gts eqs : List SigQ) (hw : ∀ g ∈ gts ++ eqs, PolyWfQ g ∧ (keys g.terms).Nodup) (n : Nat)
+    (hn : ∀ g ∈ gts ++ eqs, g.n = n) (r : Inferred) (h : inferPoly gts eqs = .ok (some r)) (x : List ℝ) (hx : NoZero x) (hl : x.length = n)
+    (hg : ∀ g ∈ gts, 0 ≤ polyR g.terms x) (he : ∀ g ∈ eqs, polyR g.terms x = 0) :
+    ∀ c ∈ r.cons, LogCon.holds (logAbs x) c := by
+  obtain ⟨hgts, heqs, _, _, _, _⟩ := dm_inferPoly_ok gts eqs r h
+  apply (inferPoly_exact gts eqs hw n hn r h x hx hl).2
+  constructor
+  · intro g hgm
+    rw [hgts] at hgm
+    obtain ⟨g0, hg0, hk⟩ := (dm_mem_keptOf_map gts gpPolyIneq g).1 hgm
+    obtain ⟨rfl, _, _⟩ := dm_gpPolyIneq_keep g0 g hk
+    exact hg g hg0
+  · intro g hgm
+    rw [heqs] at hgm
+    obtain ⟨g0, hg0, hk⟩ := (dm_mem_keptOf_map eqs gpPolyEq g).1 hgm
+    obtain ⟨rfl, _, _⟩ := dm_gpPolyEq_keep g0 g hk
+    exact he g hg0
+
+/-- COLUMN REORDERING.  `selector` lists, for each component of `x`, its column in the compiled system or −1; when the columns
+    of the `x` components that occur are exactly the first `used` columns (the auxiliary variables are created later, hence
+    numbered after them), a row of the reordered matrix applied to `(x, aux)` equals the original row applied to the assignment
+    that puts `x_i` in column `selector[i]` and `aux_k` in column `used + k` -/
+theorem reorderCols_row (row : List Rat) (ncols : Nat) (hrow : row.length = ncols) (selector : List Int)
+    (hsel : ∀ s ∈ selector, s = -1 ∨ (0 ≤ s ∧ s.toNat < (selector.filter (· != -1)).length))
+    (hinj : ((selector.filter (· != -1)).map Int.toNat).Nodup)
+    (hused : (selector.filter (· != -1)).length ≤ ncols)
+    (x aux : List ℝ) (hx : x.length = selector.length) (haux : aux.length = ncols - (selector.filter (· != -1)).length) :
+    let used := (selector.filter (· != -1)).length
+    let σ : Nat → ℝ := fun col =>
+      if col < used then
+        match (selector.zip x).find? (fun p => p.1 == (col : Int)) with
+        | some p => p.2
+        | none => 0
+      else aux.getD (col - used) 0
+    (List.zipWith (fun (q : Rat) (t : ℝ) => (q : ℝ) * t) ((reorderCols [row] ncols selector).headD []) (x ++ aux)).sum
+      = ((List.range ncols).map fun col => ((row.getD col 0 : Rat) : ℝ) * σ col).sum := by
+  intro used σ
+  apply dm_reorder_sum row ncols hrow selector hsel hinj hused x aux hx haux σ
+  · intro p hp
+    obtain ⟨h1, h2⟩ := dm_find_spec selector x hx hsel hinj p hp
+    simp only [σ, used, if_pos h1, h2]
+  · intro k
+    simp [σ, used]
+
+/-! ### non-vacuity: the hypotheses hold on concrete data, and the model produces what the code produces
+
+Signomials in two variables `(x, y)`:
+`gA = 6e^{-x} − 3e^{-2x} − 1 − e^{x}` (normalises to `6 − 3e^{-x} − e^{x} − e^{2x}`: an `lse` constraint),
+`gB = 5 − 2e^{x+y}` (a `lin` constraint), `gS = e^{x} + e^{y} − 1` (two positive terms: skipped),
+`gZ = 2e^{x} + 0·e^{y} − e^{2x}` (an explicit zero coefficient: dropped by the normalisation),
+`gR = −2e^{x} + 0` (no positive term: infeasible), `hA = 3e^{x} − 2e^{y}` (an equation).
+Polynomials: `pA = 4 − x²y²`, `pS = 1 − x` (odd exponent: skipped), `pE = x² − 4y²` (an equation).
+Concrete values are checked by evaluation of the executable model (`with_unfolding_all`: core `Rat` operations are
+irreducible). -/
+section NonVacuity
+
+private def gA : SigQ := ⟨2, [([-1, 0], 6), ([-2, 0], -3), ([0, 0], -1), ([1, 0], -1)]⟩
+private def gA' : SigQ := ⟨2, [([0, 0], 6), ([-1, 0], -3), ([1, 0], -1), ([2, 0], -1)]⟩
+private def gB : SigQ := ⟨2, [([0, 0], 5), ([1, 1], -2)]⟩
+private def gS : SigQ := ⟨2, [([1, 0], 1), ([0, 1], 1), ([0, 0], -1)]⟩
+private def gZ : SigQ := ⟨2, [([1, 0], 2), ([0, 1], 0), ([2, 0], -1)]⟩
+private def gZ' : SigQ := ⟨2, [([0, 0], 2), ([1, 0], -1)]⟩
+private def gR : SigQ := ⟨2, [([1, 0], -2), ([0, 0], 0)]⟩
+private def hA : SigQ := ⟨2, [([1, 0], 3), ([0, 1], -2)]⟩
+private def hA' : SigQ := ⟨2, [([0, 0], 3), ([-1, 1], -2)]⟩
+private def pA : SigQ := ⟨2, [([0, 0], 4), ([2, 2], -1)]⟩
+private def pS : SigQ := ⟨2, [([0, 0], 1), ([1, 0], -1)]⟩
+private def pE : SigQ := ⟨2, [([2, 0], 1), ([0, 2], -4)]⟩
+private def pE' : SigQ := ⟨2, [([0, 0], 1), ([-2, 2], -4)]⟩
+
+private theorem grid_of {ts : List (Exp × Rat)} (h : ∀ t ∈ ts, ∀ q ∈ t.1, round7 q = q) :
+    ∀ t ∈ ts, OnGrid t.1 := h
+
+private theorem gA_wf : SigWf gA := ⟨by with_unfolding_all decide, by with_unfolding_all decide⟩
+private theorem gA_grid : ∀ t ∈ gA.terms, OnGrid t.1 := grid_of (by with_unfolding_all decide)
+private theorem gZ_wf : SigWf gZ := ⟨by with_unfolding_all decide, by with_unfolding_all decide⟩
+private theorem gZ_grid : ∀ t ∈ gZ.terms, OnGrid t.1 := grid_of (by with_unfolding_all decide)
+private theorem gB_wf : SigWf gB := ⟨by with_unfolding_all decide, by with_unfolding_all decide⟩
+private theorem gB_grid : ∀ t ∈ gB.terms, OnGrid t.1 := grid_of (by with_unfolding_all decide)
+private theorem hA_wf : SigWf hA := ⟨by with_unfolding_all decide, by with_unfolding_all decide⟩
+private theorem hA_grid : ∀ t ∈ hA.terms, OnGrid t.1 := grid_of (by with_unfolding_all decide)
+
+-- what the selectors return
+private theorem gA_keep : posyIneq gA = .keep gA' := by with_unfolding_all rfl
+private theorem gB_keep : posyIneq gB = .keep gB := by with_unfolding_all rfl
+private theorem gZ_keep : posyIneq gZ = .keep gZ' := by with_unfolding_all rfl
+private theorem gR_raise : posyIneq gR = .raises "RuntimeError: infeasible signomial inequality" := by
+  with_unfolding_all rfl
+private theorem hA_keep : monoEq hA = .keep hA' := by with_unfolding_all rfl
+example : posyIneq gS = .skip := by with_unfolding_all rfl
+example : monoEq gS = .skip := by with_unfolding_all rfl
+-- the zero signomial and a single positive monomial used as an equation (`c e^{a·y} = 0`)
+example : posyIneq ⟨2, [([1, 0], 0)]⟩ = .raises "IndexError" := by with_unfolding_all rfl
+example : monoEq ⟨2, [([1, 0], 7)]⟩ = .keep ⟨2, [([0, 0], 7)]⟩ := by with_unfolding_all rfl
+example : clconEq ⟨2, [([0, 0], 7)]⟩ = [.raises "IndexError"] := by with_unfolding_all rfl
+
+-- normalisation keeps the set
+example (y : List ℝ) (hy : y.length = 2) : 0 ≤ sigR gA.terms y ↔ 0 ≤ sigR gA'.terms y :=
+  posyIneq_keep_iff gA gA' gA_wf gA_grid gA_keep y hy
+example (y : List ℝ) (hy : y.length = 2) : 0 ≤ sigR gZ.terms y ↔ 0 ≤ sigR gZ'.terms y :=
+  posyIneq_keep_iff gZ gZ' gZ_wf gZ_grid gZ_keep y hy
+example (y : List ℝ) (hy : y.length = 2) : sigR hA.terms y = 0 ↔ sigR hA'.terms y = 0 :=
+  monoEq_keep_iff hA hA' hA_wf hA_grid hA_keep y hy
+example (y : List ℝ) : sigR gR.terms y < 0 := posyIneq_raise_infeasible gR gR_raise y
+
+-- what is kept is in standard form
+private theorem gA'_std : StdGt gA' := posyIneq_keep_std gA gA' gA_wf gA_grid gA_keep
+private theorem gB_std : StdGt gB := posyIneq_keep_std gB gB gB_wf gB_grid gB_keep
+private theorem gZ'_std : StdGt gZ' := posyIneq_keep_std gZ gZ' gZ_wf gZ_grid gZ_keep
+private theorem hA'_std : StdEq hA' := by
+  rcases monoEq_keep_std hA hA' hA_wf hA_grid hA_keep with h | h
+  · exact h
+  · exact absurd h (by decide)
+
+-- the generated constraints, and what they mean
+private theorem gA'_clcon : clconGt gA' = [.lse [3, 1, 1] [[-1, 0], [1, 0], [2, 0]] 6] := by with_unfolding_all rfl
+private theorem gB_clcon : clconGt gB = [.lin [1, 1] 5 2] := by with_unfolding_all rfl
+private theorem hA'_clcon : clconEq hA' = [.eq [-1, 1] 3 2] := by with_unfolding_all rfl
+
+/-- `3e^{-x} + e^{x} + e^{2x} ≤ 6  ⟺  6 − 3e^{-x} − e^{x} − e^{2x} ≥ 0` -/
+example (y : List ℝ) (hy : y.length = 2) :
+    LogCon.holds y (.lse [3, 1, 1] [[-1, 0], [1, 0], [2, 0]] 6) ↔ 0 ≤ sigR gA'.terms y := by
+  have h := clconGt_iff gA' gA'_std y hy
+  rw [gA'_clcon] at h
+  simpa using h
+
+/-- `x + y ≤ log(5/2)  ⟺  5 − 2e^{x+y} ≥ 0` -/
+example (y : List ℝ) (hy : y.length = 2) : LogCon.holds y (.lin [1, 1] 5 2) ↔ 0 ≤ sigR gB.terms y := by
+  have h := clconGt_iff gB gB_std y hy
+  rw [gB_clcon] at h
+  simpa using h
+
+/-- `−x + y = log(3/2)  ⟺  3 − 2e^{−x+y} = 0` -/
+example (y : List ℝ) (hy : y.length = 2) : LogCon.holds y (.eq [-1, 1] 3 2) ↔ sigR hA'.terms y = 0 := by
+  have h := clconEq_iff hA' hA'_std y hy
+  rw [hA'_clcon] at h
+  simpa using h
+
+-- domain inference for signomials: `gS` is skipped, everything else is kept in normalised form
+private def rS : Inferred :=
+  ⟨[gA', gB, gZ'], [hA'], [gA', gB, gZ'], [hA'],
+    [.lse [3, 1, 1] [[-1, 0], [1, 0], [2, 0]] 6, .lin [1, 1] 5 2, .lin [1, 0] 2 1, .eq [-1, 1] 3 2]⟩
+
+private theorem inferS : inferSig [gA, gS, gB, gZ] [hA] = .ok (some rS) := by with_unfolding_all rfl
+
+private theorem hwS : ∀ g ∈ [gA, gS, gB, gZ] ++ [hA], SigWf g ∧ ∀ t ∈ g.terms, OnGrid t.1 := by
+  intro g hg
+  simp only [List.cons_append, List.nil_append, List.mem_cons, List.not_mem_nil, or_false] at hg
+  rcases hg with rfl | rfl | rfl | rfl | rfl <;>
+    exact ⟨⟨by with_unfolding_all decide, by with_unfolding_all decide⟩, grid_of (by with_unfolding_all decide)⟩
+
+private theorem hnS : ∀ g ∈ [gA, gS, gB, gZ] ++ [hA], g.n = 2 := by
+  intro g hg
+  simp only [List.cons_append, List.nil_append, List.mem_cons, List.not_mem_nil, or_false] at hg
+  rcases hg with rfl | rfl | rfl | rfl | rfl <;> rfl
+
+example (y : List ℝ) (hy : y.length = 2) :
+    (∀ c ∈ rS.cons, LogCon.holds y c) ↔
+      ((∀ g ∈ [gA', gB, gZ'], 0 ≤ sigR g.terms y) ∧ (∀ g ∈ [hA'], sigR g.terms y = 0)) :=
+  inferSig_exact [gA, gS, gB, gZ] [hA] hwS 2 hnS rS inferS y hy
+
+/-- a point that satisfies every given constraint (so the hypotheses of `inferSig_contains` are satisfiable): `(0, log(3/2))` -/
+private theorem pointS :
+    (∀ g ∈ [gA, gS, gB, gZ], 0 ≤ sigR g.terms [0, Real.log (3 / 2)]) ∧
+    (∀ g ∈ [hA], sigR g.terms [0, Real.log (3 / 2)] = 0) := by
+  have hexp : Real.exp (Real.log (3 / 2)) = 3 / 2 := Real.exp_log (by norm_num)
+  constructor
+  · intro g hg
+    simp only [List.mem_cons, List.not_mem_nil, or_false] at hg
+    rcases hg with rfl | rfl | rfl | rfl <;>
+      simp only [gA, gS, gB, gZ, sigR, rdot, List.map_cons, List.map_nil, List.zipWith_cons_cons,
+        List.zipWith_nil_right, List.sum_cons, List.sum_nil] <;>
+      norm_num [hexp]
+  · intro g hg
+    simp only [List.mem_cons, List.not_mem_nil, or_false] at hg
+    subst hg
+    simp only [hA, sigR, rdot, List.map_cons, List.map_nil, List.zipWith_cons_cons,
+      List.zipWith_nil_right, List.sum_cons, List.sum_nil]
+    norm_num [hexp]
+
+example : ∀ c ∈ rS.cons, LogCon.holds [0, Real.log (3 / 2)] c :=
+  inferSig_contains [gA, gS, gB, gZ] [hA] hwS 2 hnS rS inferS _ rfl pointS.1 pointS.2
+
+-- polynomials
+private theorem polyWfQ_of {g : SigQ} (h : ∀ t ∈ g.terms, t.1.length = g.n ∧ isPolyExp t.1 = true) : PolyWfQ g := h
+
+private theorem pA_wf : PolyWfQ pA := polyWfQ_of (by with_unfolding_all decide)
+
+example (x : List ℝ) (hx : NoZero x) (hl : x.length = 2) : polyR pA.terms x = sigR pA.terms (logAbs x) :=
+  even_poly_logabs pA pA_wf (by with_unfolding_all decide) x hx hl
+
+example : gpPolyIneq pA = .keep pA := by with_unfolding_all rfl
+example : gpPolyIneq pS = .skip := by with_unfolding_all rfl
+example : gpPolyEq pE = .keep pE := by with_unfolding_all rfl
+-- no positive term: dropped with a warning when `g(0) = 0`, infeasible otherwise
+example : gpPolyIneq ⟨2, [([2, 0], -1)]⟩ = .skip := by with_unfolding_all rfl
+example : gpPolyIneq ⟨2, [([2, 0], -1), ([0, 0], -3)]⟩ = .raises "RuntimeError: infeasible polynomial inequality" := by
+  with_unfolding_all rfl
+
+/-- `X.gts`, `X.eqs` hold the polynomials themselves; the log-space forms are the normalised ones -/
+private def rP : Inferred :=
+  ⟨[pA], [pE], [pA], [pE'], [.lin [2, 2] 4 1, .eq [-2, 2] 1 4]⟩
+
+private theorem inferP : inferPoly [pA, pS] [pE] = .ok (some rP) := by with_unfolding_all rfl
+
+private theorem hwP : ∀ g ∈ [pA, pS] ++ [pE], PolyWfQ g ∧ (keys g.terms).Nodup := by
+  intro g hg
+  simp only [List.cons_append, List.nil_append, List.mem_cons, List.not_mem_nil, or_false] at hg
+  rcases hg with rfl | rfl | rfl <;>
+    exact ⟨polyWfQ_of (by with_unfolding_all decide), by with_unfolding_all decide⟩
+
+private theorem hnP : ∀ g ∈ [pA, pS] ++ [pE], g.n = 2 := by
+  intro g hg
+  simp only [List.cons_append, List.nil_append, List.mem_cons, List.not_mem_nil, or_false] at hg
+  rcases hg with rfl | rfl | rfl <;> rfl
+
+example (x : List ℝ) (hx : NoZero x) (hl : x.length = 2) :
+    (∀ c ∈ rP.cons, LogCon.holds (logAbs x) c) ↔
+      ((∀ g ∈ [pA], 0 ≤ polyR g.terms x) ∧ (∀ g ∈ [pE], polyR g.terms x = 0)) :=
+  inferPoly_exact [pA, pS] [pE] hwP 2 hnP rP inferP x hx hl
+
+/-- a point outside the positive orthant satisfying every given polynomial constraint: `(−2, 1)` -/
+private theorem pointP :
+    NoZero [-2, 1] ∧ (∀ g ∈ [pA, pS], 0 ≤ polyR g.terms [-2, 1]) ∧ (∀ g ∈ [pE], polyR g.terms [-2, 1] = 0) := by
+  have e0 : (0 : Rat).num.toNat = 0 := by with_unfolding_all decide
+  have e1 : (1 : Rat).num.toNat = 1 := by with_unfolding_all decide
+  have e2 : (2 : Rat).num.toNat = 2 := by with_unfolding_all decide
+  refine ⟨?_, ?_, ?_⟩
+  · intro t ht
+    simp only [List.mem_cons, List.not_mem_nil, or_false] at ht
+    rcases ht with rfl | rfl <;> norm_num
+  · intro g hg
+    simp only [List.mem_cons, List.not_mem_nil, or_false] at hg
+    rcases hg with rfl | rfl <;>
+      simp only [pA, pS, polyR, monoR, List.map_cons, List.map_nil, List.zipWith_cons_cons,
+        List.zipWith_nil_right, List.sum_cons, List.sum_nil, List.prod_cons, List.prod_nil, e0, e1, e2] <;>
+      norm_num
+  · intro g hg
+    simp only [List.mem_cons, List.not_mem_nil, or_false] at hg
+    subst hg
+    simp only [pE, polyR, monoR, List.map_cons, List.map_nil, List.zipWith_cons_cons,
+      List.zipWith_nil_right, List.sum_cons, List.sum_nil, List.prod_cons, List.prod_nil, e0, e2]
+    norm_num
+
+example : ∀ c ∈ rP.cons, LogCon.holds (logAbs [-2, 1]) c :=
+  inferPoly_contains [pA, pS] [pE] hwP 2 hnP rP inferP _ pointP.1 rfl pointP.2.1 pointP.2.2
+
+-- column reordering: `x₀` sits in column 1, `x₁` occurs nowhere, `x₂` sits in column 0; two auxiliary columns
+example : reorderCols [[1, 2, 3, 4]] 4 [1, -1, 0] = [[2, 0, 1, 3, 4]] := by with_unfolding_all decide
+
+example (x0 x1 x2 u0 u1 : ℝ) :=
+  reorderCols_row [1, 2, 3, 4] 4 rfl [1, -1, 0] (by decide) (by decide) (by decide) [x0, x1, x2] [u0, u1] rfl rfl
+
+end NonVacuity
 
 end Sageopt.Props.C15
